@@ -421,6 +421,7 @@ func c25GenStmt(rt *rapid.T, serial *int) string {
 }
 
 type c25Op struct {
+	Batch [][]string // backlog: one single-statement request each
 	Kind  string
 	Stmts []string
 	Tx    bool
@@ -434,6 +435,8 @@ func (o c25Op) String() string {
 		return fmt.Sprintf("%s(tx=%v %s)", o.Kind, o.Tx, strings.Join(o.Stmts, "; "))
 	case "failn":
 		return fmt.Sprintf("failn(%d)", o.N)
+	case "backlog":
+		return fmt.Sprintf("backlog(%d big requests)", len(o.Batch))
 	case "down":
 		return fmt.Sprintf("down(hang=%v)", o.Hang)
 	}
@@ -443,7 +446,7 @@ func (o c25Op) String() string {
 func c25GenOps(rt *rapid.T) []c25Op {
 	n := rapid.IntRange(3, vstat.Scale(16, 40)).Draw(rt, "nOps")
 	serial := 0
-	kinds := []string{"req", "req", "req", "req", "req", "req", "snap", "down", "up", "failn", "flap", "downflap", "downflaprestart", "restart"}
+	kinds := []string{"req", "req", "req", "req", "req", "req", "snap", "down", "up", "failn", "flap", "downflap", "downflaprestart", "backlog", "restart"}
 	var ops []c25Op
 	for i := 0; i < n; i++ {
 		o := c25Op{Kind: rapid.SampledFrom(kinds).Draw(rt, "kind")}
@@ -456,6 +459,20 @@ func c25GenOps(rt *rapid.T) []c25Op {
 			o.Tx = rapid.Bool().Draw(rt, "tx")
 		case "failn":
 			o.N = rapid.IntRange(1, 4).Draw(rt, "failN")
+		case "backlog":
+			// an outage during which a backlog of sizeable batches builds up
+			k := rapid.IntRange(4, 12).Draw(rt, "backlogN")
+			for j := 0; j < k; j++ {
+				serial++
+				seed := uint64(rapid.IntRange(1, 1<<30).Draw(rt, "bigSeed"))
+				var sb strings.Builder
+				for sb.Len() < 240 { // poorly compressible text
+					seed = seed*6364136223846793005 + 1442695040888963407
+					sb.WriteString(fmt.Sprintf("%x", seed>>20))
+				}
+				t := rapid.SampledFrom([]string{"t1", "t1", "t2"}).Draw(rt, "bigTable")
+				o.Batch = append(o.Batch, []string{fmt.Sprintf("INSERT INTO %s(v) VALUES('big%d-%s')", t, serial, sb.String())})
+			}
 		case "down":
 			o.Hang = rapid.IntRange(0, 3).Draw(rt, "hang") == 0
 		}
@@ -468,7 +485,7 @@ func c25GenOps(rt *rapid.T) []c25Op {
 
 func TestVerif_C25_Service(t *testing.T) {
 	rec := vstat.New(t, "C25", "service",
-		"operation sequences (3..16 ops quick, ..40 thorough) on a real Store + cdc.Service + recording HTTP endpoint: Execute requests of 1..4 statements (insert/multi-row insert/update/delete on t1,t2, plus failing statements at any position: PK/UNIQUE/NOT NULL/CHECK violations, partially applied multi-row insert, syntax error, missing table) with/without transaction, user snapshots, endpoint outages (503 / dropped connection / fail next n), leadership flaps (also in the middle of an outage, also followed by a restart), node restarts; the high watermark is checked after every step against what the endpoint acknowledged; config batch size {1,2,3,10} x batch delay {5,40ms} x filter {none,^t1$}; non-trivial = at least one multi-statement request and at least one fault (outage, flap, restart or snapshot); distinct by config+op sequence")
+		"operation sequences (3..16 ops quick, ..40 thorough) on a real Store + cdc.Service + recording HTTP endpoint: Execute requests of 1..4 statements (insert/multi-row insert/update/delete on t1,t2, plus failing statements at any position: PK/UNIQUE/NOT NULL/CHECK violations, partially applied multi-row insert, syntax error, missing table) with/without transaction, user snapshots, endpoint outages (503 / dropped connection / fail next n; also outages during which a backlog of 4..12 sizeable batches builds up), leadership flaps (also in the middle of an outage, also followed by a restart), node restarts; the high watermark is checked after every step against what the endpoint acknowledged; config batch size {1,2,3,10} x batch delay {5,40ms} x filter {none,^t1$}; non-trivial = at least one multi-statement request and at least one fault (outage, flap, restart or snapshot); distinct by config+op sequence")
 	rapid.Check(t, func(rt *rapid.T) {
 		cf := c25Conf{
 			BatchSz:    rapid.SampledFrom([]int{1, 2, 3, 10}).Draw(rt, "batchSz"),
@@ -710,6 +727,17 @@ func TestVerif_C25_Service(t *testing.T) {
 				doFlap()
 			case "restart":
 				doRestart()
+			case "backlog":
+				faults = true
+				ep.mu.Lock()
+				ep.down, ep.hang = true, false
+				ep.mu.Unlock()
+				for _, st := range o.Batch {
+					if !doReq(st, false) {
+						rt.Skip("execute failed")
+					}
+				}
+				time.Sleep(cf.BatchDelay + 40*time.Millisecond) // a few watermark intervals with the leader stuck
 			case "downflaprestart":
 				// as downflap, then the node leads again for several high-watermark
 				// intervals (the watermark is broadcast and the queue pruned), then restarts
